@@ -69,3 +69,36 @@ def _(src: Str, dlm: Str, preserve_quotes_and_whitespaces: Bool) -> Tuple[List[S
     ensures(implies(not ('"' in src), contents(result_value()[0]) == str_split(src, dlm) and not result_value()[1]), 'fastpath_is_plain_split')
     ensures(is_fresh(result_value()[0]), 'fresh_list')
     raises('AssertionError', False, 'delimiter_is_not_a_quote')
+
+
+@trusted('re[[^ ]+].finditer', trusted='A-RE-runs: finditer of [^ ]+ yields the maximal runs of non-space characters, left to right (validated boundedly)')
+def _(src: Str) -> Seq[Tuple[Int, Int]]:
+    ensures(result == ws_spans(src), 'runs')
+    ensures(forall(Int, lambda i: implies(0 <= i and i < len(result), 0 <= result[i][0] and result[i][0] < result[i][1] and result[i][1] <= len(src))), 'spans_in_range')
+
+
+@trusted('re[ *[^ ]+ *].finditer', trusted='A-RE-runs (quote-preserving variant, only used for dialect detection): spans cover the text')
+def _(src: Str) -> Seq[Tuple[Int, Int]]:
+    ensures(forall(Int, lambda i: implies(0 <= i and i < len(result), 0 <= result[i][0] and result[i][0] < result[i][1] and result[i][1] <= len(src))), 'spans_in_range')
+
+
+@contract('csv_utils.split_whitespace_separated_str', name='C11.ws_split', props=['C11', 'C10'], store_policy='none')
+def _(src: Str, preserve_whitespaces: Bool) -> List[Str]:
+    local_types(result=List[Str])
+    loop_types(0, m=Opaque)
+    invariant(0, 0 <= __i and is_fresh(result), 'idx')
+    invariant(0, implies(not preserve_whitespaces, contents(result) == ws_texts(src, ws_spans(src), __i)), 'runs_so_far')
+    invariant(1, is_fresh(result) and 0 <= __i and len(result) == at_loop_entry(len(result)), 'fresh')
+    loop_types(1, i=Int)
+    # whitespace policy: the fields are the maximal runs of non-space characters
+    ensures(implies(not preserve_whitespaces, contents(result) == ws_texts(src, ws_spans(src), len(ws_spans(src)))), 'split_on_runs_of_spaces')
+    ensures(is_fresh(result), 'fresh_list')
+
+
+@contract('csv_utils.smart_split', name='C11.smart_split', props=['C11', 'C10', 'C12'], store_policy='none')
+def _(src: Str, dlm: Str, policy: Str, preserve_quotes_and_whitespaces: Bool) -> Tuple[List[Str], Bool]:
+    requires(implies(policy != 'simple' and policy != 'whitespace' and policy != 'monocolumn', len(dlm) == 1 and dlm != '"'), 'single_char_delimiter_for_quoted_policies')
+    requires(implies(policy == 'simple', len(dlm) >= 1), 'non_empty_delimiter')
+    ensures(implies(not preserve_quotes_and_whitespaces, contents(result[0]) == record_fields(src, dlm, policy)), 'fields_by_policy')
+    ensures(implies(not preserve_quotes_and_whitespaces, result[1] == record_warn(src, dlm, policy)), 'warning_by_policy')
+    ensures(is_fresh(result[0]), 'fresh_list')
